@@ -11,7 +11,7 @@ PROPS["C10"] = {
                    "(lx:ly:l:lxy) for arbitrary non-zero l (and through Add/Sub round trips) and Equal/IsIdentity/IsSmallOrder/"
                    "IsTorsionFree/MarshalBinary/SetEdwards are compared with index arithmetic and affine reference values; all 64 "
                    "pairs of E[8] are enumerated. SetMontgomery is compared with the reference birational map for curve, twist, u=-1, "
-                   "u>=p and bit-255 inputs and both signs. Does not prove absence."),
+                   "u>=p and bit-255 inputs and both signs. Does not prove absence. String classes include byte-wise comparison probes against p (agree above one byte index, differ at it), strings that keep only the ends of a special encoding, and every Compressed*.UnmarshalBinary repeated on a receiver that already holds the input."),
     "level_note": ("Trusted: math/big, verifref (self-tested against RFC 8032 constants), rapid. `sign` values other than 0/1 for "
                    "SetMontgomery are outside the documented domain. SetCompressedY's receiver state after an error is not documented "
                    "and not asserted (UnmarshalBinary's is: identity)."),
